@@ -1,4 +1,88 @@
 import Driver.Common
+import AnyioModel.Stream.Socket
 
-/-- placeholder driver: replies `unimplemented` to every request -/
-def main : IO Unit := Driver.serve () (fun s _ => (s, "unimplemented"))
+namespace Driver.Sock
+open AnyioModel.Stream.Socket
+
+/-- "1.2.3" -> [1,2,3]; "-" -> [] -/
+def parseBytes (w : String) : Option Bytes :=
+  if w = "-" then some [] else (w.splitOn ".").mapM String.toNat?
+
+def showBytes (b : Bytes) : String :=
+  if b.isEmpty then "-" else ".".intercalate (b.map toString)
+
+def parseNats (w : String) : Option (List Nat) :=
+  if w = "-" then some [] else (w.splitOn ",").mapM String.toNat?
+
+def outStr : Out → String
+  | .susp => "susp"
+  | .ret => "ret"
+  | .retData d => "ret " ++ showBytes d
+  | .eos => "eos"
+  | .closedErr => "closed"
+  | .broken => "broken"
+  | .busy => "busy"
+  | .valueError => "valueerror"
+  | .runtimeError => "runtimeerror"
+  | .cancelled => "cancelled"
+  | .env => "env"
+
+def parseEv : List String → Option Ev
+  | ["receive", t, n] => do some (.receive (← t.toNat?) (← n.toNat?))
+  | ["send", t, p] => do some (.send (← t.toNat?) (← parseBytes p))
+  | ["send_eof", t] => do some (.sendEof (← t.toNat?))
+  | ["aclose", t] => do some (.aclose (← t.toNat?))
+  | ["step", t] => do some (.step (← t.toNat?))
+  | ["fc", t] => do some (.fc (← t.toNat?))
+  | ["mc", t] => do some (.fc (← t.toNat?))
+  | ["data", p] => do some (.dataReceived (← parseBytes p))
+  | ["eof"] => some .eofReceived
+  | ["lost", b] => do some (.connectionLost (← Driver.parseBool b))
+  | ["pause"] => some .pauseWriting
+  | ["resume"] => some .resumeWriting
+  | _ => none
+
+def recvOutStr : RecvOut → String
+  | .data d => "ret:" ++ showBytes d
+  | .eos => "eos"
+  | .valueError => "valueerror"
+
+/-- items of the given sizes, bytes numbered by position in the whole stream mod 239 -/
+def usendAll : List Nat → List Nat → Bytes → Bytes
+  | [], _, acc => acc
+  | k :: ks, script, acc =>
+    let item := (List.range k).map (fun i => (acc.length + i) % 239)
+    let r := unixSend item script
+    usendAll ks r.2 (acc ++ r.1)
+
+def parseRecvScript (w : String) : Option (List (Option Bytes)) :=
+  if w = "-" then some []
+  else (w.splitOn ";").mapM (fun x => if x = "b" then some none else (parseBytes x).map some)
+
+def handle (s : State) : List String → State × String
+  | ["new", r] =>
+    match Driver.parseBool r with
+    | some b => ({ init with reading := b }, "ok")
+    | none => (s, "bad-op")
+  | ["nop"] => (s, "env")
+  | ["obs"] =>
+    (s, s!"reading={Driver.bool01 s.reading} closing={Driver.bool01 s.closing} weof={Driver.bool01 s.weof} wrote={s.written.length}:{s.written.foldl (· + ·) 0 % 65521}")
+  | ["usend", sizes, script] =>
+    match parseNats sizes, parseNats script with
+    | some ks, some sc => (s, "sent " ++ showBytes (usendAll ks sc []))
+    | _, _ => (s, "bad-op")
+  | ["urecv", script, recvs] =>
+    match parseRecvScript script, parseNats recvs with
+    | some sc, some ns => (s, " ".intercalate ((unixRecv ns [] sc).map recvOutStr))
+    | _, _ => (s, "bad-op")
+  | ws =>
+    match parseEv ws with
+    | none => (s, "bad-op")
+    | some e =>
+      match step s e with
+      | none => (s, "DISABLED")
+      | some (s', o) => (s', outStr o)
+
+end Driver.Sock
+
+def main : IO Unit := Driver.serve AnyioModel.Stream.Socket.init Driver.Sock.handle
